@@ -83,7 +83,7 @@ def generate(seed, tier):
         # collected): it is still a collection and counts against the limits
         s["failing"] = kind in ("snapshot", "log") and r.random() < 0.2
         s["via"] = r.choice(("service", "direct"))
-        s["window"] = r.choice((None, None, None, "start", "end", "both", "arg-past", "arg-future"))
+        s["window"] = r.choice((None, None, None, "start", "end", "both", "arg-past", "arg-future", "arg-negative"))
         if s["window"] in ("start", "end", "both"):
             s["via"] = "direct"
             s["kind"] = "snapshot"
@@ -136,6 +136,8 @@ def _args(s):
         args["window_end"] = "1"             # over since 1970, in any unit
     elif s.get("window") == "arg-future":
         args["window_start"] = str(10 ** 30)  # not yet, in any unit
+    elif s.get("window") == "arg-negative":
+        args["window_start"] = "-1"          # open since before 1970 (or unusable, hence no start): every hit is inside
     if s.get("failing"):
         args["log_msg"] = "hit {i} x={x"
         if s["kind"] == "log":
@@ -185,7 +187,7 @@ def _execute_seq(s, ch):
         w.start()
         k.settle()
         period_ns = RefLimiter(1, s["fire_period"] if s["fire_period"] is not None else 1000).period_ns
-        win = {"arg-past": (0, 1), "arg-future": (10 ** 30, 0)}.get(s.get("window"), (0, 0))
+        win = {"arg-past": (0, 1), "arg-future": (10 ** 30, 0), "arg-negative": (-1, 0)}.get(s.get("window"), (0, 0))
         if s["via"] == "service":
             def the_tp():
                 return w.service.make_tp("tp", p.basename, tp_line, args, watches, [
